@@ -41,7 +41,8 @@ def run(tier, res, replay=None):
     rng = random.Random(common.seed() * 7919 + 18)
     design(res)
     items = []
-    for base in (guard.base_single, guard.base_rich, guard.base_core):
+    for base in (guard.base_single, guard.base_rich, guard.base_core,
+                 guard.base_adiabatic):
         items += [(base.__name__[5:] + '/' + x[0],) + x[1:]
                   for x in guard.targeted(rng, base, tier)]
     items += [('rich/' + x[0],) + x[1:]
